@@ -126,7 +126,7 @@ func (c *checker) startImage(s *server, e *sim.Ev) {
 	im := startImg{}
 	_, im.last = d.bounds()
 	im.ci, im.lc = d.latestLogCfg()
-	if sn := d.newest(); sn != nil {
+	if sn := d.newestUsable(); sn != nil {
 		im.hasSnap, im.snapIdx, im.snapCfg, im.snapCfgIdx = true, sn.index, sn.cfg, sn.cfgIdx
 		if sn.index > im.last {
 			im.last = sn.index
@@ -215,7 +215,7 @@ func (c *checker) checkStarted(s *server, e *sim.Ev) {
 				found = true
 			}
 		}
-		if sn := d.newest(); sn != nil && sn.cfg == cfg {
+		if sn := d.newestUsable(); sn != nil && sn.cfg == cfg {
 			found = true
 		}
 		if !found {
@@ -224,7 +224,7 @@ func (c *checker) checkStarted(s *server, e *sim.Ev) {
 	}
 	// the configuration must also be the one the committed history had at that point: a
 	// snapshot that carries an older configuration than an entry it covers loses that entry
-	if sn := d.newest(); sn != nil && lc == "" && im.hasSnap && sn.index == im.snapIdx {
+	if sn := d.newestUsable(); sn != nil && lc == "" && im.hasSnap && sn.index == im.snapIdx {
 		var gi uint64
 		var gc string
 		for i, g := range c.G {
